@@ -12,6 +12,8 @@ VARIABLE hist
 Fam(f) == f \in Families
 Emit(step) == PrintT(<<"BEH", ToJson(Append(hist, step))>>)
 DevOf(F(_)) == IF F(AllDevs) = F({}) THEN "" ELSE CHOOSE d \in AllDevs : F({d}) # F({})
+(* exp: what the specification demands; where the transcription of the code differs: alt and the switch (dev) *)
+Exp(F(_)) == IF F(AllDevs) = F({}) THEN [exp |-> F({})] ELSE [exp |-> F({}), alt |-> F(AllDevs), dev |-> DevOf(F)]
 Ops == UNCHANGED <<vars, hist>>
 C == E(cur)
 Mems == DOMAIN cur.map
@@ -21,15 +23,13 @@ GInit == Init /\ hist = <<>>
 GNew(form, nm, dp, kp) ==
   /\ New(form, nm, dp, kp)
   /\ LET F(S) == NewRes(S, form, nm, dp, kp)
-         step == [act |-> "new", form |-> form, nm |-> nm, dp |-> dp, kp |-> kp,
-                  exp |-> F({}), alt |-> F(AllDevs), dev |-> DevOf(F)]
+         step == [act |-> "new", form |-> form, nm |-> nm, dp |-> dp, kp |-> kp] @@ Exp(F)
      IN /\ Fam("build") => Emit(step)
         /\ hist' = IF act'.ok THEN Append(hist, step) ELSE hist
 GExtend(form, nm, kp) ==
   /\ Extend(form, nm, kp)
   /\ LET F(S) == ExtRes(S, form, nm, kp)
-         step == [act |-> "extend", form |-> form, nm |-> nm, kp |-> kp,
-                  exp |-> F({}), alt |-> F(AllDevs), dev |-> DevOf(F)]
+         step == [act |-> "extend", form |-> form, nm |-> nm, kp |-> kp] @@ Exp(F)
      IN /\ Fam("build") => Emit(step)
         /\ hist' = IF act'.ok THEN Append(hist, step) ELSE hist
 GRename(nm) ==
@@ -49,16 +49,21 @@ GLook == /\ Fam("look") /\ cur.ok /\ Ops
                Emit([act |-> "sib", mn |-> mn, key |-> key, exp |-> Sibling(C, mn, key)])
          /\ Emit([act |-> "rep", exp |-> StrR(EnumRepr(C))])
 GCmp == /\ Fam("cmp") /\ cur.ok /\ Ops
+        /\ \A mn \in Mems, x \in Operands(C) :
+              LET F(S) == CmpDirect(S, C, mn, x) IN Emit([act |-> "cmp3", mn |-> mn, x |-> x] @@ Exp(F))
         /\ \A mn \in Mems, op \in {"eq", "ne", "lt", "le", "gt", "ge"}, side \in {"l", "r"}, x \in Operands(C) :
               LET F(S) == CmpOp(S, C, mn, op, side, x) IN
-              Emit([act |-> "cmp", mn |-> mn, op |-> op, side |-> side, x |-> x,
-                    exp |-> F({}), alt |-> F(AllDevs), dev |-> DevOf(F)])
+              Emit([act |-> "cmp", mn |-> mn, op |-> op, side |-> side, x |-> x] @@ Exp(F))
+GType == /\ Fam("etype") /\ cur.ok /\ Mems # {} /\ Ops
+         /\ \A key \in Operands(C) : /\ Emit([act |-> "et_look", key |-> key, exp |-> TypeLookup(C, key)])
+                                      /\ Emit([act |-> "et_export", key |-> key, exp |-> TypeExport(C, key)])
+         /\ Emit([act |-> "et_copy", exp |-> EnumR(C)])
+         /\ Emit([act |-> "et_rename", exp |-> EnumR([nm |-> "renamed", map |-> cur.map])])
 GArith == /\ Fam("arith") /\ cur.ok /\ Ops
           /\ \A mn \in Mems, op \in BinOps, side \in {"l", "r"}, x \in ArithOperands :
                 (side = "r" => x.ty = "int") =>
                    LET F(S) == Arith(S, C, mn, op, side, x) IN
-                   Emit([act |-> "ar", mn |-> mn, op |-> op, side |-> side, x |-> x,
-                         exp |-> F({}), alt |-> F(AllDevs), dev |-> DevOf(F)])
+                   Emit([act |-> "ar", mn |-> mn, op |-> op, side |-> side, x |-> x] @@ Exp(F))
           /\ \A mn \in Mems, op \in BinOps \ {"divmod"} :
                 Emit([act |-> "iop", mn |-> mn, op |-> op, exp |-> InPlace({}, C, mn, op)])
 GConv == /\ Fam("conv") /\ cur.ok /\ Ops
@@ -67,7 +72,7 @@ GMut == /\ Fam("mut") /\ cur.ok /\ Ops
         /\ \A kind \in EnumMuts \cup MemberMuts :
               (kind \in MemberMuts \cup {"pop", "popitem", "setitem_old", "setattr_old", "delitem"} => Mems # {}) =>
                  LET F(S) == MutRes(S, C, kind) IN
-                 Emit([act |-> "mut", kind |-> kind, exp |-> F({}), alt |-> F(AllDevs), dev |-> DevOf(F)])
+                 Emit([act |-> "mut", kind |-> kind] @@ Exp(F))
         /\ Emit([act |-> "mctor", kind |-> "noenum", exp |-> Exc("TypeError")])
         /\ Emit([act |-> "mctor", kind |-> "detached", exp |-> R("mem", 9, 0, "zz")])
         /\ Emit([act |-> "twin", exp |-> BoolR(TRUE)])
@@ -82,7 +87,7 @@ GNext == \/ \E form \in NewForms, nm \in DispNames, ps \in AllSeqs(MaxPieces) : 
                GNew(form, nm, SubSeq(ps, 1, j), SubSeq(ps, j + 1, Len(ps)))
          \/ \E form \in ExtForms, nm \in DispNames, kp \in PieceSeqs(MaxExt) : GExtend(form, nm, kp)
          \/ \E nm \in DispNames : GRename(nm)
-         \/ GLook \/ GCmp \/ GArith \/ GConv \/ GMut \/ GEqe
+         \/ GLook \/ GCmp \/ GType \/ GArith \/ GConv \/ GMut \/ GEqe
 GSpec == GInit /\ [][GNext]_<<vars, hist>>
 GView == cur
 =============================================================================
